@@ -1,8 +1,11 @@
 SPECIFICATION Spec
 CONSTANT Part = "machine"
-CONSTANT Deviation = "FixedTauOverwritten"
+CONSTANT Deviation = "none"
 CONSTANT MaxDepth = 3
-CONSTANT Rebounds = FALSE
+CONSTANT Rebounds = TRUE
 CONSTANT Export = FALSE
+INVARIANT MachineTypeOK
+INVARIANT C05_ForecastUses
 INVARIANT C05_FitResult
+INVARIANT C05_AttrsAreLatestFit
 CHECK_DEADLOCK FALSE
